@@ -106,8 +106,8 @@ func (s *script) checkSelected(what string, h int, inputs []types.SiacoinOutputI
 			if u.SiacoinOutput.Address != e.addr {
 				s.c.Oracle(what+"-input-not-owned", "output %d is not the wallet's", n)
 			}
-			if u.MaturityHeight > e.height() {
-				s.c.Oracle(what+"-input-immature", "output %d matures at %d, tip is %d", n, u.MaturityHeight, e.height())
+			if u.MaturityHeight > e.storeHeight() {
+				s.c.Oracle(what+"-input-immature", "output %d matures at %d, the wallet has scanned to %d", n, u.MaturityHeight, e.storeHeight())
 			}
 		} else if o, ok := pv.created[id]; ok && allowUnconfirmed {
 			sum = sum.Add(o.Value)
@@ -184,12 +184,22 @@ func (s *script) fund(v2 bool, amt types.Currency, uc bool, own types.Currency, 
 	pv := e.pool()
 	t := &ftxn{h: h, v2: v2, born: time.Now(), nForeign: len(fin)}
 	var appended []types.SiacoinOutput
+	panicked := func(f func()) (r any) {
+		defer func() { r = recover() }()
+		f()
+		return nil
+	}
 	if v2 {
 		t.v2t = types.V2Transaction{SiacoinOutputs: append([]types.SiacoinOutput(nil), pre...), ArbitraryData: e.unique("f")}
 		for _, f := range fin {
 			t.v2t.SiacoinInputs = append(t.v2t.SiacoinInputs, types.V2SiacoinInput{Parent: f})
 		}
-		t.basis, t.toSignV2, err = e.w.FundV2Transaction(&t.v2t, amt, uc)
+		if r := panicked(func() { t.basis, t.toSignV2, err = e.w.FundV2Transaction(&t.v2t, amt, uc) }); r != nil {
+			s.c.Oracle("fund-panic", "FundV2Transaction(%s) panicked with options %+v: %v", cur(amt), e.cfg, r)
+			s.emit(op, "panic")
+			s.stopped = "panic"
+			return
+		}
 		for _, in := range t.v2t.SiacoinInputs[len(fin):] {
 			t.inputs = append(t.inputs, in.Parent.ID)
 			if v, ok := e.values[in.Parent.ID]; ok && (!v.Equals(in.Parent.SiacoinOutput.Value) || in.Parent.SiacoinOutput.Address != e.addr) {
@@ -204,7 +214,12 @@ func (s *script) fund(v2 bool, amt types.Currency, uc bool, own types.Currency, 
 		for _, f := range fin {
 			t.v1.SiacoinInputs = append(t.v1.SiacoinInputs, types.SiacoinInput{ParentID: f.ID, UnlockConditions: e.ouc})
 		}
-		t.toSign, err = e.w.FundTransaction(&t.v1, amt, uc)
+		if r := panicked(func() { t.toSign, err = e.w.FundTransaction(&t.v1, amt, uc) }); r != nil {
+			s.c.Oracle("fund-panic", "FundTransaction(%s) panicked with options %+v: %v", cur(amt), e.cfg, r)
+			s.emit(op, "panic")
+			s.stopped = "panic"
+			return
+		}
 		for _, in := range t.v1.SiacoinInputs[len(fin):] {
 			t.inputs = append(t.inputs, in.ParentID)
 		}
@@ -407,7 +422,7 @@ func (s *script) release(hs []int) {
 	for _, h := range hs {
 		for _, id := range e.txns[h].inputs {
 			for _, u := range utxos {
-				if u.ID == id && u.MaturityHeight <= e.height() && !pv.spent[id] && !after[id] {
+				if u.ID == id && u.MaturityHeight <= e.storeHeight() && !pv.spent[id] && !after[id] {
 					s.c.Oracle("release-did-not-unlock", "output %d is still not spendable after ReleaseInputs", e.ids[id])
 				}
 			}
@@ -448,7 +463,7 @@ func (s *script) xspend(v2 bool, n int, backPermille int) {
 		e.signV1(&t.v1)
 	}
 	if v2 {
-		err = e.addV2(e.cm.Tip(), t.v2t)
+		err = e.addV2(e.storeTip(), t.v2t)
 	} else {
 		err = e.addV1(t.v1)
 	}
@@ -462,8 +477,39 @@ func (s *script) xspend(v2 bool, n int, backPermille int) {
 	s.emit(op, "ok")
 }
 
+// lag: k empty blocks are mined on the manager and the wallet is not told.
+func (s *script) lag(k int) {
+	e := s.e
+	if len(e.cm.PoolTransactions())+len(e.cm.V2PoolTransactions()) != 0 {
+		return // a block would confirm pooled transactions: that is a `mine`
+	}
+	for i := 0; i < k; i++ {
+		e.mineOne(types.VoidAddress)
+		e.next++
+	}
+	e.lagging += k
+	s.kinds["lag"]++
+	s.emit(fmt.Sprintf("lag %d", k), "ok")
+}
+
+// syncLag: the wallet processes the blocks it is behind.
+func (s *script) syncLag() {
+	e := s.e
+	if e.lagging == 0 {
+		return
+	}
+	e.sync()
+	e.lagging = 0
+	s.kinds["sync"]++
+	s.emit("sync", "ok")
+}
+
 func (s *script) mine(toWallet bool) {
 	e := s.e
+	if e.lagging > 0 {
+		s.syncLag()
+		s.observe()
+	}
 	addr := types.VoidAddress
 	who := 0
 	if toWallet {
@@ -517,7 +563,7 @@ func (s *script) restart(fresh bool) {
 func (s *script) redistribute(outputs int, amt, fpb types.Currency) {
 	e := s.e
 	h0 := e.nextH
-	op := fmt.Sprintf("redist %d %d %s %s", h0, outputs, cur(amt), cur(fpb))
+	op := fmt.Sprintf("redist %d %d %s %s", h0, max(outputs, 0), cur(amt), cur(fpb)) // a negative count behaves like 0
 	before := s.spendableSet()
 	pv := e.pool()
 	born := time.Now()
@@ -588,7 +634,7 @@ func (s *script) split(n int, min types.Currency) {
 	h := e.nextH
 	e.nextH++
 	fee := e.w.RecommendedFee()
-	op := fmt.Sprintf("split %d %d %s %s", h, n, cur(min), cur(fee))
+	op := fmt.Sprintf("split %d %d %s %s", h, max(n, 0), cur(min), cur(fee)) // a negative count behaves like 0
 	pv := e.pool()
 	before := s.spendableSet()
 	born := time.Now()
@@ -602,8 +648,9 @@ func (s *script) split(n int, min types.Currency) {
 		return
 	}()
 	if panicked {
-		// Manager.V2TransactionSet indexes the v2 pool with a v1 index (see env.v2Set); not the wallet's doing
-		s.stopped = "manager-parentmap-panic"
+		s.c.Oracle("split-panic", "SplitUTXO(%d, %s) panicked with options %+v", n, cur(min), e.cfg)
+		s.emit(op, "panic")
+		s.stopped = "panic"
 		return
 	}
 	s.kinds["split"]++
